@@ -133,7 +133,7 @@ def main():
                      "(expandAlignT_eq: scatter of lengths + cumulative sum = prefix sums; null mask), hence to read back what was supplied.")
             tech += " + per-run translation of the list-array alignment proved equal to the model"
         if pid == "C05":
-            text += " The holdout methods SampleN / SampleFrac / LastN / LastFrac are re-translated on every run (translate/py2lean_holdout.py) and LastN is proved equal to the model's repaired lastN."
+            text += " The holdout methods SampleN / SampleFrac / LastN / LastFrac are re-translated on every run (translate/py2lean_holdout.py) and LastN is proved equal to the model's repaired lastN. The record splitters' bookkeeping (_make_pair, crossfold_records, _disjoint_samples) is matched statement by statement on every run (translate/py2lean_split.py → LK/Generated/SplitC05.lean) and proved equal to the model's makePair / crossfoldRecords."
         if pid == "C06":
             text += (" array_dcg / fixed_dcg are re-translated statement by statement on every run (translate/py2lean_np.py → LK/Generated/NpC06.lean) and proved equal to the model's arrayDcg / fixedDcg; "
                      "measure_list of Hit, Precision, Recall, RecipRank, RBP, NDCG (binary and graded) and MeanPopRank is re-translated (translate/py2lean_rank.py → LK/Generated/RankC06.lean) and each proved equal to the model's metric.")
